@@ -18,7 +18,7 @@ CLAIMED = {
         technique="deterministic simulation (simulated work-stealing pool) + refinement check against a sequential reference trainer",
         design="DESIGN.md 5 (C04)"),
     "C05": dict(
-        text="Seeded search over (network configuration, data, pool width, steal/order decision at every join, worker re-indexing, pool resize between API calls, hash seed, clock script); every observation of learn/validate/predict_batch must be bit-identical to the sequential width-1 reference, and an exact repetition must reproduce it. Thorough tier adds engine E2: the real rayon-core on real threads under Miri's seeded scheduler for six fixed and twelve generated scenarios.",
+        text="Seeded search over (network configuration, data, pool width, steal/order decision at every join, worker re-indexing, pool resize between API calls, hash seed, clock script); every observation of learn/validate/predict_batch must be bit-identical to the sequential width-1 reference, and an exact repetition must reproduce it. Thorough tier adds engine E2: the real rayon-core on real threads under Miri's seeded scheduler for seven fixed and twelve generated scenarios.",
         note="Trusted: the simulated rayon-core reproduces the scheduling-visible semantics of rayon-core 1.12.1 (join/join_context migration flags, current_num_threads, current_thread_index, scope/spawn order); it switches only at join boundaries. All nondeterminism is assumed to enter through rayon-core, Tensor::random's clock read and HashMap's hasher.",
         technique="deterministic simulation (simulated work-stealing pool, seeded hasher and clock), differential bitwise oracle against the sequential reference; Miri seeded-scheduler cross-check",
         design="DESIGN.md 3, 5 (C05)"),
